@@ -12,10 +12,14 @@ CONSTANTS Frameworks, MaxMw, Batches, EmitOn
 VARIABLES ms, pc, bad, nextScope, emitted
 vars == <<ms, pc, bad, nextScope, emitted>>
 
+\* the special situations are mutually exclusive (each is only relevant on top of an otherwise plain configuration):
+\* enumerating them as one dimension keeps the configuration set small
+Extras == {"none", "outer", "closefail", "defeh", "replacectx", "noabort", "mwcanceled"}
 Cfgs == {[fw |-> f, nmw |-> n, mwfail |-> mf, handler |-> h, registered |-> rg, method |-> m, recovery |-> rc,
-          scopemw |-> sm, provclosed |-> pcl, batch |-> b, outer |-> ou, closefail |-> cf, defeh |-> de, replacectx |-> rx, noabort |-> na] :
+          scopemw |-> sm, provclosed |-> pcl, batch |-> b, outer |-> x = "outer", closefail |-> x = "closefail",
+          defeh |-> x = "defeh", replacectx |-> x = "replacectx", noabort |-> x = "noabort", mwcanceled |-> x = "mwcanceled"] :
             f \in Frameworks, n \in 0..MaxMw, mf \in 0..MaxMw, h \in {"ok", "err", "panic", "handle"}, rg \in BOOLEAN,
-            m \in {"ok", "panic"}, rc \in BOOLEAN, sm \in BOOLEAN, pcl \in BOOLEAN, b \in Batches, ou \in BOOLEAN, cf \in BOOLEAN, de \in BOOLEAN, rx \in BOOLEAN, na \in BOOLEAN}
+            m \in {"ok", "panic"}, rc \in BOOLEAN, sm \in BOOLEAN, pcl \in BOOLEAN, b \in Batches, x \in Extras}
 \* drop combinations that only repeat others
 Relevant(c) == /\ c.mwfail <= c.nmw
                /\ (c.handler # "handle" => (c.registered /\ c.method = "ok" /\ ~c.recovery))
@@ -26,6 +30,8 @@ Relevant(c) == /\ c.mwfail <= c.nmw
                /\ (c.closefail => (c.scopemw /\ ~c.provclosed /\ ~c.outer /\ c.nmw <= 1))
                /\ (c.replacectx => (c.fw = "fiber" /\ c.handler = "handle" /\ c.scopemw /\ ~c.provclosed /\ c.mwfail = 0
                                     /\ ~c.outer /\ ~c.closefail /\ ~c.defeh))
+               /\ (c.mwcanceled => (c.mwfail > 0 /\ c.scopemw /\ ~c.provclosed /\ ~c.outer /\ ~c.closefail /\ ~c.defeh /\ ~c.noabort
+                                    /\ c.batch = 1))
                /\ (c.noabort => (c.fw = "gin" /\ c.handler = "handle" /\ c.registered /\ c.scopemw /\ ~c.provclosed /\ c.mwfail > 0
                                  /\ ~c.outer /\ ~c.closefail /\ ~c.defeh /\ ~c.replacectx /\ c.batch = 1))
                /\ (c.defeh => (c.scopemw /\ (c.provclosed \/ c.mwfail > 0) /\ ~c.outer /\ ~c.closefail))
